@@ -19,6 +19,7 @@ oracle:         the property text on observables only (vlib/printcheck.py judge_
 """
 import json
 import os
+import re
 
 from vlib.hostlist import hx, unhx, LIMIT, parse_probe, parse_spec
 from vlib.printcheck import (Gen, PrintRunner, PrintCli, FIXED, Rec, parse_dump, parse_sweep, judge_sweep, all_hosts,
@@ -207,7 +208,11 @@ def sweep_lists(ctx, pr, cases, exact, cov, dist):
                 elif sum(r.count() for r in recs) <= 4000 and not long_name(recs):
                     back_jobs.append((kind, text, recs, case))
             if isx:
-                ix, mx = names["pexact %s +2" % kind], mnames["pexact %s +2" % kind]
+                # a store just behind the buffer is reported as heap-buffer-overflow, or - when the chunk is the last one
+                # of a mapped allocator region, so that no redzone follows it - as a plain SEGV on a write (or
+                # `unknown-crash` on a mixed shadow byte): one class
+                ix = re.sub(r":(SEGV|unknown-crash)\b", ":heap-buffer-overflow", names["pexact %s +2" % kind])
+                mx = mnames["pexact %s +2" % kind]
                 if ix != mx:
                     ctx.disagreement("print model vs hostlist.c under ASan, exact-size allocation (%s)" % kname(kind),
                                      "impl `%s` model `%s`" % (ix[:300], mx[:300]), case)
